@@ -557,7 +557,12 @@ func (w *fileWeaver) stmt(outer ast.Stmt) {
 		w.ins(x.Pos(), repl)
 	case *ast.DeferStmt:
 		if ptr, m, ok := w.syncLockCall(x.Call); ok && (m == "Unlock" || m == "RUnlock") {
-			after(fmt.Sprintf("; defer simrt.BeforeUnlock(%s, %s, %s)", ptr, mode(m), w.site(x.Pos(), "dunlock")))
+			// `defer x.Unlock()` becomes a deferred literal: model release, real unlock, then a scheduling
+			// point (what runs after a deferred unlock — other defers, the caller — is an interleaving
+			// point like any other)
+			s := w.site(x.Pos(), "dunlock")
+			w.delRange(x.Pos(), x.End())
+			w.ins(x.Pos(), fmt.Sprintf("defer func() { simrt.BeforeUnlock(%s, %s, %s); %s; simrt.AfterUnlock(%s) }()", ptr, mode(m), s, w.text(x.Call), s))
 			return
 		}
 		if w.isWaitGroupWait(x.Call) {
